@@ -663,8 +663,8 @@ def _script_half(plan, ops, symbols, probe, trace):
                                      [(str(a), str(b)) for a, b in want_soft]))
         # strict formula, where defined
         names = [c.name for c in script.commands]
-        if smtcmd.PUSH not in names and smtcmd.POP not in names and \
-           smtcmd.RESET_ASSERTIONS not in names and names.count(smtcmd.CHECK_SAT) == 1:
+        if smtcmd.PUSH not in names and smtcmd.POP not in names and names.count(smtcmd.CHECK_SAT) == 1:
+            # (reset-assertions is accepted by get_strict_formula: what it retracted is not asserted)
             sf = api("get_strict_formula(%s)" % route, lambda: script.get_strict_formula(mgr=mgr))
             if sf is not want_f:
                 raise Violation("C16:script:%s:strict-formula" % route, "%s vs %s" % (sf, want_f))
